@@ -1,5 +1,129 @@
 import Sentinel.Drv.Common
-/-! Driver for the integrated default-chain pipeline (stub: replaced by the real driver) -/
+import Sentinel.Drv.C02
+import Sentinel.Drv.C03
+import Sentinel.Drv.C04
+import Sentinel.Drv.C06
+import Sentinel.Drv.C07
+import Sentinel.Model.Pipeline
+/-!
+Driver for the integrated default-chain check `INT` (an internal check, run as an extra phase of C16 and C01).
+
+`model` = `Sentinel.Pipe.step` (the product of the module models on the built-in chain),
+`spec`  = `Sentinel.Pipe.specStep` (the product of the module *references*; decision = first block in the built-in order).
+
+Ops (resources are numbers `k`, the resource name is `r<k>`; the rule syntaxes are those of the module drivers):
+
+* `clock <ms>`                                   first op of a case; never decreases
+* `load sys <metric>/<strategy>/<f:bits> …`      `system.LoadRules`            (C07 syntax)
+* `load flow <k,f:thr,iv,ref|-> …`               `flow.LoadRules`, Direct/Reject (C02 syntax), once per case
+* `load iso <k>:<thr> …`                         `isolation.LoadRules`         (C04 syntax with numeric resources)
+* `load hot <r<k>;c;idx;key;thr;pmc;items> …`    `hotspot.LoadRules`           (C06 syntax, concurrency rules)
+* `load cb <r<k>,kind,retry,minReq,statI,buckets,maxRt,f:thr,probe> …`  => number of valid rules (C03 syntax), once per case
+* `sysmetric load|cpu <f:bits>`
+* `entry <id> <k> in|out <batch> <val>… @key=val…`  => `pass | block sys | block flow <i> | block iso <i> <tv> | block hot | block cb <i>`
+* `trace <id>` (`api.TraceError(entry, biz)`), `exit <id> [err]`
+* `stat <k>|inb`  => `[p= b= c= e= rt= conc= p10= b10= c10=]` (`GetSum` of the default metric, the gauge, `GenerateReadStat(20,10000)`) or `nil`
+* `cbstate <k>` => `[C,O,H…]`, `log` => listener callbacks since the last `log`
+* `order` => the rule-check slots in chain order
+-/
 namespace Sentinel.Drv.INT
-def run (_mode : String) : IO Unit := IO.eprintln "INT: driver not implemented"
+open Sentinel.Pipe Sentinel.Drv
+open Sentinel.LA (Bucket)
+
+abbrev fA : Sentinel.System.Arith Float := Sentinel.Drv.C07.fA
+
+def showBlk : Option Blk → String
+  | none => "pass"
+  | some .sys => "block sys"
+  | some (.flow i) => s!"block flow {i}"
+  | some (.iso i tv) => s!"block iso {i} {tv.toNat}"
+  | some .hot => "block hot"
+  | some (.cb k) => s!"block cb {k}"
+
+def slotName : Slot → String
+  | .sys => "system" | .flow => "flow" | .iso => "isolation" | .hot => "hotspot" | .cb => "circuitbreaker"
+
+def parseKey? (s : String) : Option Sentinel.Entry.Key :=
+  if s = "inb" then some none else s.toNat?.map fun k => some (rname k)
+
+def isoRule? (s : String) : Option (String × UInt32) :=
+  match s.splitOn ":" with
+  | [r, t] => match r.toNat?, Sentinel.Drv.C04.u32? t with
+    | some k, some t => some (rname k, t)
+    | _, _ => none
+  | _ => none
+
+def parseOp? : List String → Option (Op Float)
+  | ["clock", t] => t.toNat?.map .clock
+  | "load" :: "sys" :: rs => (Sentinel.Drv.C07.parseRules? rs).map .loadSys
+  | "load" :: "flow" :: rs => (Sentinel.Drv.C02.parseRules rs).map .loadFlow
+  | "load" :: "iso" :: rs => (rs.mapM isoRule?).map .loadIso
+  | "load" :: "hot" :: rs => (Sentinel.Drv.C06.parseRules? rs).bind fun l => if l.all (·.conc) then some (.loadHot l) else none
+  | "load" :: "cb" :: rs => (Sentinel.Drv.C03.parseRules? rs).map fun prs =>
+      .loadCb ((Sentinel.Drv.C03.numbered prs).map fun p => (p.1, p.2.rule))
+  | ["sysmetric", "load", f] => (parseFbits? f).map .sysLoad
+  | ["sysmetric", "cpu", f] => (parseFbits? f).map .sysCpu
+  | "entry" :: id :: k :: dir :: b :: rest =>
+      match id.toNat?, k.toNat?, b.toNat?, Sentinel.Drv.C06.parseEntryArgs? rest with
+      | some id, some k, some b, some (as, ats) =>
+        if (dir ≠ "in" && dir ≠ "out") || b ≥ 4294967296 || rest.any (·.startsWith "#") then none
+        else some (.entry { id := id, res := k, inbound := dir = "in", batch := b, args := as, atts := ats })
+      | _, _, _, _ => none
+  | ["trace", id] => id.toNat?.map .trace
+  | ["exit", id] => id.toNat?.map fun id => .exit id false
+  | ["exit", id, "err"] => id.toNat?.map fun id => .exit id true
+  | ["log"] => some .log
+  | _ => none
+
+def showStat (w1 w10 : Option Bucket) (c : Option Int) : String :=
+  match w1, w10, c with
+  | some a, some b, some c =>
+    s!"[p={a.pass} b={a.block} c={a.complete} e={a.error} rt={a.rt} conc={c} p10={b.pass} b10={b.block} c10={b.complete}]"
+  | _, _, _ => "nil"
+
+def showOut (kinds : List (Nat × Sentinel.CB.Kind)) : Out → Option String
+  | .none => none
+  | .bad => some "bad-op"
+  | .dec d => some (showBlk d)
+  | .num n => some (toString n)
+  | .log evs => some (showList (evs.map (Sentinel.Drv.C03.showEv kinds)))
+
+def orderLine : String := showList (ruleSlots.map slotName)
+
+def stepModel (s : St Float) (ts : List String) (_ : String) : St Float × Option String :=
+  match ts with
+  | ["order"] => (s, some orderLine)
+  | ["stat", k] => match parseKey? k with
+    | some k => if s.started then (s, some (showStat (obsStat s k 1000) (obsStat s k 10000) (obsConc s k))) else (s, some "bad-op")
+    | none => (s, some "bad-op")
+  | ["cbstate", k] => match k.toNat? with
+    | some k => (s, some (showList ((obsCb s (rname k)).map Sentinel.Drv.C03.stCh)))
+    | none => (s, some "bad-op")
+  | _ =>
+    match parseOp? ts with
+    | none => (s, some "bad-op")
+    | some op =>
+      let r := step fA s op
+      (r.1, showOut (s.cb.brs.map fun b => (b.id, b.rule.kind)) r.2)
+
+def stepSpec (s : SpecSt Float) (ts : List String) (_ : String) : SpecSt Float × Option String :=
+  match ts with
+  | ["order"] => (s, some (showList ([Slot.sys, .flow, .iso, .hot, .cb].map slotName)))
+  | ["stat", k] => match parseKey? k with
+    | some k => if s.started then (s, some (showStat (specStat s k 1000) (specStat s k 10000) (specConc s k))) else (s, some "bad-op")
+    | none => (s, some "bad-op")
+  | ["cbstate", k] => match k.toNat? with
+    | some k => (s, some (showList ((specCb s (rname k)).map Sentinel.Drv.C03.stCh)))
+    | none => (s, some "bad-op")
+  | _ =>
+    match parseOp? ts with
+    | none => (s, some "bad-op")
+    | some op =>
+      let r := specStep fA s op
+      (r.1, showOut (s.cb.brs.map fun b => (b.id, b.rule.kind)) r.2)
+
+def run (mode : String) : IO Unit :=
+  if mode == "spec" then loop ({ sys := { load := -1.0, cpu := -1.0 } } : SpecSt Float) stepSpec
+  else loop ({ load := -1.0, cpu := -1.0 } : St Float) stepModel
+
 end Sentinel.Drv.INT
